@@ -150,7 +150,7 @@ func (ex *Exec) callFunction(fr *Frame, st *State, fn *ssa.Function, bind []Valu
 		}
 		return v
 	}
-	if ct != nil && !ct.Inline && !(fr.isSpec) {
+	if ct != nil && !ct.Inline && !(fr.isSpec) && !(ex.contract != nil && ex.contract.InlineCallees[fn.Name()]) {
 		return ex.applyContract(fr, st, ct, fn, fn.Signature, args, pos, rt)
 	}
 	if len(fn.Blocks) > 0 && fr.depth < maxInlineDepth && !onStack(fr, fn) && ex.P.inlinable(fn, ct) {
